@@ -108,18 +108,26 @@ Print Assumptions C29_xstep_atomic_partial.
    object-store writes are not observable).  [effects o s] lists them in program
    order; a filesystem fault between two stores leaves [after_fault j o s]. *)
 
-(* the store list is the operation: replayed on s it gives the state the
-   operation returns (so the prefixes are the states a fault can leave) *)
+(* the store list is the operation, refused or not: replayed on s it gives the
+   state the operation returns (so its prefixes are the states a fault between
+   stores can leave) *)
 Theorem C29_effects_sound : forall o s,
-  is_porcelain o = true -> fst (xstep o s) = None -> apply_effs (effects o s) s = snd (xstep o s).
+  is_porcelain o = true -> apply_effs (effects o s) s = snd (xstep o s).
 Proof. exact effects_sound. Qed.
 Print Assumptions C29_effects_sound.
 
+(* a refused operation (under the guards of the atomicity theorems) has made no
+   observable store at all: a fault anywhere in it changes nothing either *)
+Theorem C29_fault_refused_atomic : forall o s x j,
+  op_guard o s = true -> fst (xstep o s) = Some x -> observable (after_fault j o s) = observable s.
+Proof. exact fault_refused_atomic. Qed.
+Print Assumptions C29_fault_refused_atomic.
+
 (* Add, Merge and Commit without All perform ONE observable store: whatever
    number of stores a fault lets through, the repository is observably the old
-   one or exactly the new one *)
+   one or exactly the one the undisturbed operation returns *)
 Theorem C29_fault_single_store_atomic : forall o s j,
-  single_store o = true -> fst (xstep o s) = None ->
+  single_store o = true ->
   observable (after_fault j o s) = observable s \/ after_fault j o s = snd (xstep o s).
 Proof. exact fault_single_store_atomic. Qed.
 Print Assumptions C29_fault_single_store_atomic.
